@@ -62,6 +62,7 @@ type Term struct {
 	// the other variables), asserted whenever the variable is mentioned.
 	Defs  []*Term
 	Input bool // named harness input
+	Hint  *Term // for witnesses: an equality that usually holds (exact float result); used to prefer simple models
 	wits  []*Term
 	witsD bool
 	size  int
